@@ -183,6 +183,8 @@ inductive SCond where
   | argLenZero
   /-- `self._h5group.has_data(name)` -/
   | hasData (name : String)
+  /-- `np.ndim(<arg>) != 1` -/
+  | argNotFlat
   | not (c : SCond)
   | or (a b : SCond)
   | and (a b : SCond)
@@ -196,8 +198,8 @@ inductive SStmt where
   | delItem (name : String)
   /-- `self._h5group.write_data(name, <arg>, DataType.<d>)` -/
   | writeData (name : String) (d : DType)
-  /-- `if np.ndim(<arg>) != 1: raise ValueError(...)` -/
-  | checkFlat
+  /-- `if c: raise <Exception>(...)` -/
+  | raiseIf (c : SCond) (e : Err)
   /-- `util.check_attr_type(<arg>, Number)` (`None` passes) -/
   | checkNumber
   /-- `self._h5group.set_attr(name, <arg>)` (`None` deletes the attribute) -/
@@ -218,6 +220,12 @@ def SCond.eval (cn : String) (a : Arr) (arg : SArg) : SCond → Except Err Bool
     | .coeff _ => .error .typeError               -- `len()` of a number / of None
     | .origin _ => .error .runtimeError           -- not modelled
   | .hasData n => if n = cn then .ok a.coeffs.isSome else .error .runtimeError
+  | .argNotFlat =>
+    match arg with
+    | .coeff (.seq _) => .ok false
+    | .coeff (.badElems _) => .ok false
+    | .coeff _ => .ok true                         -- nested / 2-D / text; `np.ndim` of a number or `None` is 0
+    | .origin _ => .error .runtimeError            -- not modelled
   | .not c => (c.eval cn a arg).map (!·)
   | .or x y => do if (← x.eval cn a arg) then pure true else y.eval cn a arg
   | .and x y => do if (← x.eval cn a arg) then y.eval cn a arg else pure false
@@ -237,12 +245,7 @@ def SStmt.run (cn on : String) (arg : SArg) : SStmt → Arr → Except Err Arr
       | .coeff (.badElems cplx) => .error (if cplx then .typeError else .valueError)
       | _ => .error .runtimeError                 -- not modelled (never reached by the code as it is)
     else .error .runtimeError
-  | .checkFlat, a =>
-    match arg with
-    | .coeff (.seq _) => .ok a
-    | .coeff (.badElems _) => .ok a
-    | .coeff (.notFlat _) => .error .valueError
-    | _ => .error .runtimeError                   -- `np.ndim` of a number / None is 0, never reached
+  | .raiseIf c e, a => do if (← c.eval cn a arg) then .error e else pure a
   | .checkNumber, a =>
     match arg with
     | .origin .notNumber => .error .typeError
